@@ -11,12 +11,16 @@
 //!          spawn k-1, then spawn k ('-' = spawn again unchanged); `x<n>` in stage 0 = n spawns in all (appends '-' stages);
 //!          `fr<i>` in stage 0 = the fault list applies to spawn i (default 0), every other spawn runs fault-free.
 //!          Every spawn is measured on its own; the records are joined with ` ;; `.
+//! `c13 --envseq`: environment-builder call sequences, one per line, see envseq.rs (this build: no `start` feature).
 //! output (per spawn): res=<ok|err:N|err:nocode> returned=<0|1> ctrace=<..> status=<n|-> status2=<n|-> waits=<n> img=<ok|none|bad:..>
 //!         seen=<argv ids/env ids> sio=<what fd 0,1,2 of the image are> pipes=<which of Child::stdin/stdout/stderr are Some>
 //!         cls=<pre-exec closures the child called, by registration index> stray=<none|zombie|running> handed=<n> leaked=<n> ptrace=<..>
 #![allow(clippy::all)]
 #[path = "../../c12/src/casekit.rs"]
 mod casekit;
+extern crate alloc;
+/// the environment-builder sequences (shared with the no-libc `start` probe harness-nolibc/c13probe)
+mod envseq;
 use casekit as kit;
 use tiny_std::process::{Command, Stdio};
 use tiny_std::unix::fd::AsRawFd;
@@ -529,6 +533,24 @@ fn main() {
     }
     if args.len() == 4 && args[1] == "--case" {
         case_main(&args[2], &args[3]);
+        return;
+    }
+    if args.len() == 2 && args[1] == "--envseq" {
+        // one builder sequence per line (see envseq.rs); this build has no `start` feature
+        use std::io::BufRead;
+        std::panic::set_hook(Box::new(|_| {}));
+        for line in std::io::stdin().lock().lines() {
+            let line = line.unwrap_or_default();
+            let r = std::panic::catch_unwind(|| {
+                let mut out = Vec::new();
+                envseq::run_line(line.trim(), &mut out);
+                out
+            });
+            match r {
+                Ok(out) => println!("{}", String::from_utf8_lossy(&out)),
+                Err(_) => println!("panic"),
+            }
+        }
         return;
     }
     let jobs = std::env::var("C13_JOBS").ok().and_then(|s| s.parse().ok()).unwrap_or(8);
